@@ -35,12 +35,17 @@ def byteOfBits (f : Nat → Bool) : Byte :=
 def specSetBit (m : Mem) (pdu s w v i : Nat) : Bool :=
   if s ≤ i ∧ i < s + w then v.testBit (s + w - 1 - i) else wireBit m pdu i
 
-/-- Reference writer.  Memory below the PDU is untouched by definition; at and above
-    it every byte is rebuilt from `specSetBit` (which is the identity outside the
-    field). -/
+/-- Reference writer.  Memory below the PDU is untouched by definition; at and above it
+    every byte is rebuilt from its own bits with the field's bits replaced (the identity
+    outside the field; `specSet_wireBit` states it in terms of `specSetBit`).  The old byte
+    is read once, so nested writes stay cheap to evaluate. -/
 def specSet (m : Mem) (pdu s w v : Nat) : Mem := fun a =>
-  if pdu ≤ a then byteOfBits (fun k => specSetBit m pdu s w v (8 * (a - pdu) + k))
-  else m a
+  let b := m a
+  if pdu ≤ a then
+    byteOfBits (fun k =>
+      let i := 8 * (a - pdu) + k
+      if s ≤ i ∧ i < s + w then v.testBit (s + w - 1 - i) else b.val.testBit (7 - k))
+  else b
 
 /-- Zero `len` octets at `p` (what `memset(p, 0, len)` does). -/
 def zeroFill (m : Mem) (p len : Nat) : Mem := fun a => if p ≤ a ∧ a < p + len then 0 else m a
